@@ -1,7 +1,7 @@
 (* Props/C10.v -- property theorems only *)
 From Coq Require Import ZArith List NArith.
 From Falcon Require Import Base.Res IL.Const IL.Expr IL.Func IL.Loc Exec.Sem SSA.SemSSA SSA.FuncEq SSA.SsaCheck
-     SSA.SsaSound SSA.C10Check.
+     SSA.SsaSound SSA.SsaModel SSA.SsaSmall SSA.C10Check.
 Import ListNotations.
 Local Open Scope Z_scope.
 
@@ -36,6 +36,22 @@ Theorem ssa_step_sim : forall f' T, check_typing f' T = true ->
   res_sim (loc_ty f' T) (sem_step (erase_func f') l st) (ssa_step f' l st').
 Proof. exact SsaSound.step_sim. Qed.
 Print Assumptions ssa_step_sim.
+
+(* reading of the typing inside [simulates]: at every step every operand of the instruction about to run
+   has, at the version it names, the binding its name has in the original state *)
+Theorem ssa_operands_agree : forall f' ty a b, item_sim f' ty a b ->
+  forall i rs s, loc_instruction f' (ti_loc a) = Some i -> op_scalars_read (i_op i) = Some rs -> In s rs ->
+  env_get (st_env (ti_before b)) (skey_of s) = env_get (st_env (ti_before a)) (sname s, None).
+Proof. exact SsaSound.item_operands_agree. Qed.
+Print Assumptions ssa_operands_agree.
+
+(* [F] small-scope completeness of the MODEL of the algorithm: all 74 676 functions of the family
+   (1-3 blocks, one operation of a 6-element alphabet per block, any <= 2 successors per block). *)
+Theorem ssa_model_passes_small : forall n ops outs, (1 <= n <= 3)%nat ->
+  In ops (lists_of n alphabet) -> In outs (lists_of n (out_choices n)) ->
+  exists f', ssa_model (mk_fun ops outs) = Ok f' /\ ssa_check (mk_fun ops outs) f' = true.
+Proof. exact SsaSmall.ssa_model_passes_small. Qed.
+Print Assumptions ssa_model_passes_small.
 
 (* ---- the hypotheses are satisfiable; the validator is not vacuous ---- *)
 Definition sx (v : option N) := mks 0%N 32 v.
